@@ -287,7 +287,7 @@ def check_sum(ctx):
         it = dc.generators[0].iter
         okrs = isinstance(it, ast.Call) and A.call_name(it) == "zip" and [canon(a) for a in it.args][:1] == ["par_names"] and canon(it.args[-1]) == "samples_values" \
             and isinstance(dc.generators[0].target, ast.Tuple) and canon(dc.key) == canon(dc.generators[0].target.elts[0]) \
-            and canon(A.strip_casts(dc.value)) == canon(dc.generators[0].target.elts[-1])
+            and canon(A.strip_casts(dc.value, any_astype=True)) == canon(dc.generators[0].target.elts[-1])
     ctx.check(R, rs[0] if rs else fn, "draw i is stored under name i", okrs, "raw_samples = %s" % (A.unparse(rs[0].value)[:100] if rs else None), key="pairing")
     # logp loop
     lps = [c for c in A.calls_in(fn) if A.call_name(c) == "pm.logp"]
